@@ -504,7 +504,7 @@ fn gen_engagement(ctx: &mut Ctx, protocol_info: bool) -> DeviceEngagement {
         security: Security(suite, Tag24::new(key).expect("tag24")),
         device_retrieval_methods,
         server_retrieval_methods,
-        protocol_info: if protocol_info { Some(gen_value(ctx, 1)) } else { None },
+        protocol_info: if protocol_info { Some(if ctx.rng.gen_bool(0.1) { Value::Null } else { gen_value(ctx, 1) }) } else { None },
     }
 }
 fn gen_handover(ctx: &mut Ctx) -> Handover {
@@ -969,7 +969,7 @@ fn mutate(ctx: &mut Ctx, v: &mut Value, depth: u32) -> String {
             }
             2 => {
                 // plausible but wrong date / version strings
-                *t = ["2020-01-01T00:00:00+01:00", "2020-01-01T00:00:00.5Z", "2020-01-01 00:00:00Z", "2020-02-30T00:00:00Z", "2020-01-01T00:00:00", "1.1", "SHA-1", "2020-01-01t00:00:00z", "2020-13-01T00:00:00Z", "2020-01-01T24:00:00Z", "2020-01-01T00:00:00+24:00", "2020-01-01T00:00:00.123456789123-23:59"]
+                *t = ["2020-01-01T00:00:00+01:00", "2020-01-01T00:00:00.5Z", "2020-01-01 00:00:00Z", "2020-02-30T00:00:00Z", "2020-01-01T00:00:00", "1.1", "SHA-1", "2020-01-01t00:00:00z", "2020-13-01T00:00:00Z", "2020-01-01T24:00:00Z", "2020-01-01T00:00:00+24:00", "2020-01-01T00:00:00.123456789123-23:59", "9999-12-31T23:59:59-01:00", "0000-01-01T00:00:00+01:00", "9999-12-31T23:59:59Z", "0000-01-01T00:00:00Z"]
                     .choose(&mut ctx.rng)
                     .unwrap()
                     .to_string();
@@ -1103,9 +1103,30 @@ fn time_cases(ctx: &mut Ctx) {
         [9998, 12, 30, 23, 59, 59, 999_999_999, -86399],
         [1970, 1, 1, 0, 0, 0, 0, 0],
         [1969, 12, 31, 23, 59, 59, 999_999_999, 0],
+        // UTC form outside 0000..9999: the serialiser must return an error (it used to panic for the first two)
+        [9999, 12, 31, 23, 59, 59, 0, -3600],
+        [9999, 12, 31, 23, 59, 59, 999_999_999, -1],
+        [9999, 12, 31, 0, 0, 0, 0, -86399],
+        [0, 1, 1, 0, 0, 0, 0, 3600],
+        [0, 1, 1, 0, 0, 0, 0, 1],
+        [0, 1, 1, 23, 59, 59, 0, 86399],
+        // ... and the last / first representable instants
+        [9999, 12, 31, 23, 59, 59, 999_999_999, 0],
+        [9999, 12, 31, 22, 59, 59, 0, -3600],
+        [0, 1, 1, 0, 0, 0, 0, 0],
+        [0, 1, 1, 1, 0, 0, 0, 3600],
     ];
     for i in 0..n {
-        let f = if (i as usize) < fixed.len() { fixed[i as usize] } else { gen_date_fields(ctx, false) };
+        let f = if (i as usize) < fixed.len() {
+            fixed[i as usize]
+        } else if i % 50 == 0 {
+            // near the ends of the representable range, either side
+            let hi = ctx.rng.gen_bool(0.5);
+            let off = ctx.rng.gen_range(-86399i64..=86399);
+            if hi { [9999, 12, 31, ctx.rng.gen_range(0..24), ctx.rng.gen_range(0..60), ctx.rng.gen_range(0..60), 0, off] } else { [0, 1, 1, ctx.rng.gen_range(0..24), ctx.rng.gen_range(0..60), ctx.rng.gen_range(0..60), 0, off] }
+        } else {
+            gen_date_fields(ctx, false)
+        };
         let Some(dt) = mk_date(&f) else { continue };
         let base = mk_date(&[2020, 1, 1, 0, 0, 0, 0, 0]).unwrap();
         let v = ValidityInfo { signed: dt, valid_from: base, valid_until: base, expected_update: None };
@@ -1117,7 +1138,11 @@ fn time_cases(ctx: &mut Ctx) {
                 },
                 _ => arr(vec![uint(0), Value::Null]),
             },
-            _ => arr(vec![uint(0), Value::Null]),
+            Ok(Err(_)) => {
+                ctx.count("time_case:encode_error");
+                arr(vec![uint(0), Value::Null])
+            }
+            Err(p) => arr(vec![uint(2), text(&p)]),
         };
         ctx.count(if f[7] == 0 { "time_case:utc" } else { "time_case:offset" });
         let args = vec![arr(f.iter().map(|x| int(*x as i128)).collect())];
@@ -1173,8 +1198,8 @@ pub fn run(ctx: &mut Ctx) {
         both!("SessionEstablishment", SessionEstablishment, SessionEstablishment { e_reader_key: Tag24::new(gen_cose_key(ctx)).unwrap(), data: ByteStr::from(gen_bytes(ctx, 300)) }, view_session_establishment);
         both!("Handover", Handover, gen_handover(ctx), view_handover);
         both!("CoseKey", CoseKey, gen_cose_key(ctx), view_cose_key);
-        both!("DeviceEngagement", DeviceEngagement, gen_engagement(ctx, false), view_engagement);
-        both!("SessionTranscript", SessionTranscript180135, SessionTranscript180135(Tag24::new(gen_engagement(ctx, false)).unwrap(), Tag24::new(gen_cose_key(ctx)).unwrap(), gen_handover(ctx)), view_transcript);
+        both!("DeviceEngagement", DeviceEngagement, { let pi = ctx.rng.gen_bool(0.3); if pi { ctx.count("engagement:protocol_info"); } gen_engagement(ctx, pi) }, view_engagement);
+        both!("SessionTranscript", SessionTranscript180135, SessionTranscript180135(Tag24::new({ let pi = ctx.rng.gen_bool(0.2); gen_engagement(ctx, pi) }).unwrap(), Tag24::new(gen_cose_key(ctx)).unwrap(), gen_handover(ctx)), view_transcript);
         both!("DeviceRetrievalMethod", DeviceRetrievalMethod, gen_method(ctx), view_method);
         both!("BleOptions", BleOptions, gen_ble(ctx), view_ble);
         both!("ItemsRequest", ItemsRequest, gen_items_request(ctx), view_items_request);
@@ -1211,11 +1236,6 @@ pub fn run(ctx: &mut Ctx) {
                 malformed::<NfcOptions>(ctx, ty, &b, &view_null, m);
             }
         }
-    }
-    // DeviceEngagement carrying protocol info: the recorded finding (dropped by the serialiser)
-    for _ in 0..ctx.budget(5, 50) {
-        let e = gen_engagement(ctx, true);
-        valid::<DeviceEngagement>(ctx, "DeviceEngagement", "rust, protocol_info present", &e, &view_engagement);
     }
     time_cases(ctx);
     jwk_cases(ctx);
